@@ -193,7 +193,8 @@ Definition iter_switch (A : wargs) (p0 : part) (pe0 : expo) (s : wstate) : part 
   let tprofit := dec_trunc_int (ws_profit s) in
   if avail <=? 0 then (p0, pe0, true, None, ws_carry s)
   else if avail <=? tprofit then
-    let '(stake, c) := bet_amount_int (wa_oddsval A) (dec_of_int avail) (ws_carry s) in
+    let '(stake0, c) := bet_amount_int (wa_oddsval A) (dec_of_int avail) (ws_carry s) in
+    let stake := Z.min (Z.max stake0 0) (ws_betamt s) in        (* never negative, never above what is left of the bet *)
     let '(p, e) := fulfil_records p0 pe0 (wa_sel A) stake avail in
     (p, e, true, Some (stake, avail), c)
   else
